@@ -401,6 +401,13 @@ fn drive<F: Future>(sh: &Sh, me: usize, req: usize, fut: F, abandon_after: Optio
         polls += 1;
         if let Some(k) = abandon_after {
             if polls > k as u32 {
+                // The drop does not have to follow the unsuccessful poll immediately: a cancelled
+                // task is dropped whenever its owner gets round to it, by which time the TX or RX
+                // side may have moved the slot on (e.g. the response may have arrived: RxDone).
+                let wait = with(|c| c.tape.choose(4, "abandon_delay_yields"));
+                for _ in 0..wait {
+                    enginef::yield_now();
+                }
                 return None;
             }
         }
